@@ -503,10 +503,11 @@ class GMMMachine(BaseEstimator):
 
         if self.ubm is not None:
             self.means = copy.deepcopy(self.ubm.means)
-            self.variances = copy.deepcopy(self.ubm.variances)
+            # floors first: the variances setter clamps to the current floors
             self.variance_thresholds = copy.deepcopy(
                 self.ubm.variance_thresholds
             )
+            self.variances = copy.deepcopy(self.ubm.variances)
             self.weights = copy.deepcopy(self.ubm.weights)
         else:
             self.weights = np.full(
@@ -633,10 +634,11 @@ class GMMMachine(BaseEstimator):
             )
             gaussians_group = hdf5["gaussians"]
             self.means = gaussians_group["means"][...]
-            self.variances = gaussians_group["variances"][...]
+            # floors first: the variances setter clamps to the current floors
             self.variance_thresholds = gaussians_group["variance_thresholds"][
                 ...
             ]
+            self.variances = gaussians_group["variances"][...]
         else:  # Legacy file version
             logger.info("Loading a legacy HDF5 machine file.")
             n_gaussians = hdf5["m_n_gaussians"][()][0]
@@ -653,10 +655,10 @@ class GMMMachine(BaseEstimator):
             weights = np.reshape(hdf5["m_weights"], (n_gaussians,))
             self = cls(n_gaussians=n_gaussians, ubm=ubm, weights=weights)
             self.means = np.array(g_means).reshape(n_gaussians, -1)
-            self.variances = np.array(g_variances).reshape(n_gaussians, -1)
             self.variance_thresholds = np.array(g_variance_thresholds).reshape(
                 n_gaussians, -1
             )
+            self.variances = np.array(g_variances).reshape(n_gaussians, -1)
         return self
 
     def load(self, hdf5):
@@ -717,10 +719,11 @@ class GMMMachine(BaseEstimator):
         """Populates gaussians parameters with either k-means or the UBM values."""
         if self.trainer == "map":
             self.means = copy.deepcopy(self.ubm.means)
-            self.variances = copy.deepcopy(self.ubm.variances)
+            # floors first: the variances setter clamps to the current floors
             self.variance_thresholds = copy.deepcopy(
                 self.ubm.variance_thresholds
             )
+            self.variances = copy.deepcopy(self.ubm.variances)
             self.weights = copy.deepcopy(self.ubm.weights)
         else:
             logger.debug("GMM means was never set. Initializing with k-means.")
